@@ -109,6 +109,17 @@ def mutating2(theta, N, seed):
     return out
 
 
+def nan_by_seed2(theta, N, seed):
+    """A stochastic model that diverges for some SEEDS (NaN tail when seed % 4 == 0), whatever the parameters."""
+    _enter(theta, N, seed)
+    rng = np.random.default_rng(seed)
+    th = np.asarray(theta, dtype=float)
+    out = np.stack([th[j % len(th)] * (1 + j) + 0.1 * rng.standard_normal(N) for j in range(2)], axis=1)
+    if seed is not None and int(seed) % 4 == 0:
+        out[N // 2:, 0] = np.nan
+    return _log(theta, N, seed, out)
+
+
 def const2(theta, N, seed):
     _enter(theta, N, seed)
     out = np.ones((N, 2)) * 0.25
@@ -142,4 +153,4 @@ def model_script(theta, N, seed):
     return _log(theta, N, seed, out)
 
 
-MODELS = {f.__name__: f for f in (gauss1, gauss2, ident2, huge2, inf2, nan2, mutating2, const2, slow_uneven2, slow_ident2, model_script)}
+MODELS = {f.__name__: f for f in (nan_by_seed2, gauss1, gauss2, ident2, huge2, inf2, nan2, mutating2, const2, slow_uneven2, slow_ident2, model_script)}
